@@ -46,6 +46,7 @@ type Env struct {
 	logSt     *State // state in which call-log components are read (nil: st)
 	goal      bool // the formula is being proved (true) or assumed (false)
 	pol       int  // polarity of the current subformula: +1, -1, 0 (unknown)
+	block     *ssa.BasicBlock // where local variable names are resolved (nil: the current block); set by before()/after()
 	split     bool         // directly inside an outermost assumed universal (Skolem form stated separately)
 	univ      []univBinder // enclosing assumed universal binders (for Skolem functions)
 	noSkolem  bool         // some enclosing quantifier is not an assumed universal
@@ -225,7 +226,11 @@ func (vc *FuncVC) lookupIdent(env *Env, name string) *CVal {
 		}
 		if env.loop == nil {
 			// outside loops allow DebugRef names that dominate the current block
-			if v := vc.debugValue(name, vc.curBlock, env.st); v != nil {
+			blk := vc.curBlock
+			if env.block != nil {
+				blk = env.block
+			}
+			if v := vc.debugValue(name, blk, env.st); v != nil {
 				return v
 			}
 		}
@@ -1144,6 +1149,10 @@ func (vc *FuncVC) evalCall(env *Env, x *ECall) *CVal {
 			n.st = vc.neverState
 		} else {
 			n.st = sts[site]
+			if bs := vc.callBlock[id.Name]; site < len(bs) {
+				n.block = bs[site]
+				n.loop = nil
+			}
 		}
 		if n.logSt == nil {
 			n.logSt = env.st
